@@ -14,7 +14,9 @@ Conventions (see `TEXT_API.md` beside this file):
 * Offsets are `Int` wherever Python lets a negative number through.
 * `Variant` carries one boolean per genuine defect of rich 9.10.0 found by the C05 check:
   `true` = the code as released, `false` = the minimally repaired code, which /repo contains now (`fix:` commits
-  0149e10, ba4c9a6, 3a84457, b5c0e99, aad03fe, 9ca68f6; the former `pending_fixes/C05-*.diff`).
+  0149e10, ba4c9a6, 3a84457, b5c0e99, aad03fe, 9ca68f6; the former `pending_fixes/C05-*.diff`).  Two further
+  defects are selected by an explicit first argument instead of a `Variant` field: `rstripEndW` (fix f5f2be9, C08's
+  finding) and `splitW` (fix b61fef8, `Text.split` on a separator that overlaps itself); both are repaired in /repo.
 -/
 namespace RichModel
 
@@ -570,10 +572,10 @@ def expandTabs [BEq σ] (v : Variant) (t : Text σ) (tabSize : Option Nat := non
 
 /-! #### split with the `endswith` repair, slices with a step, and the remaining public helpers -/
 
-/-- `split` with the repair of `pending_fixes/C05-split-overlapping-separator.diff` as a flag.
-`endsw = true` is rich as released: the last line is dropped when `text.endswith(separator)` — for a separator
+/-- `split` with the repair of fix b61fef8 (the former `pending_fixes/C05-split-overlapping-separator.diff`) as a flag.
+`endsw = true` is rich 9.10.0 as found: the last line is dropped when `text.endswith(separator)` — for a separator
 that overlaps itself (`"aaa".split("aa")`) that line is not blank and characters are lost;
-`endsw = false` is the repaired code: the last line is dropped when it is blank.
+`endsw = false` is the repaired code, which /repo contains now: the last line is dropped when it is blank.
 (`splitW true = split`; an explicit argument for the same reason as `rstripEndW`.) -/
 def splitW [BEq σ] (endsw : Bool) (v : Variant) (t : Text σ) (sep : List Char := ['\n'])
     (includeSeparator : Bool := false) (allowBlank : Bool := false) : Except PyErr (List (Text σ)) :=
